@@ -55,14 +55,45 @@ func contentFiles(content string) map[string]string {
 	return map[string]string{"f": content}
 }
 
+// Builder materialises a history step by step (so that callers can act between
+// events, e.g. populate a cache at log length k).
+type Builder struct {
+	H   *History
+	B   Backend
+	Out *Built
+	tip map[string]githash.Hash // ref -> commit of latest push
+	pos int
+}
+
+func NewBuilder(h *History, b Backend) *Builder {
+	n := len(h.Events)
+	return &Builder{H: h, B: b, tip: map[string]githash.Hash{},
+		Out: &Built{EntryID: make([]githash.Hash, n), CommitID: make([]githash.Hash, n), Errors: make([]string, n)}}
+}
+
+// Next reports whether events remain.
+func (bl *Builder) Next() bool { return bl.pos < len(bl.H.Events) }
+
+// Pos is the index of the next event to be built.
+func (bl *Builder) Pos() int { return bl.pos }
+
 // Build materialises the history on the backend with gittuf's own writers.
 // A builder error on an event that the scenario expects to succeed is the
 // caller's to judge; Build records it and continues.
 func (h *History) Build(b Backend) (*Built, error) {
-	n := len(h.Events)
-	out := &Built{EntryID: make([]githash.Hash, n), CommitID: make([]githash.Hash, n), Errors: make([]string, n)}
-	tip := map[string]githash.Hash{} // ref -> commit of latest push
-	for i := range h.Events {
+	bl := NewBuilder(h, b)
+	for bl.Next() {
+		bl.Step()
+	}
+	return bl.Out, nil
+}
+
+// Step builds the next event.
+func (bl *Builder) Step() {
+	h, b, out, tip := bl.H, bl.B, bl.Out, bl.tip
+	i := bl.pos
+	bl.pos++
+	{
 		ev := &h.Events[i]
 		var err error
 		switch ev.Kind {
@@ -148,7 +179,7 @@ func (h *History) Build(b Backend) (*Built, error) {
 			target := out.CommitID[ev.OnPush]
 			var signer *keys.Actor
 			if ev.TagSigner != "" {
-				signer = keys.Get(ev.TagSigner)
+				signer = keys.ByName(ev.TagSigner)
 			}
 			var tid githash.Hash
 			tid, err = b.Tag(target, ev.Ref[len(gitinterface.TagRefPrefix):], "tag", signer)
@@ -167,7 +198,6 @@ func (h *History) Build(b Backend) (*Built, error) {
 			out.Errors[i] = err.Error()
 		}
 	}
-	return out, nil
 }
 
 func (h *History) approve(b Backend, ev *Event, from githash.Hash) error {
@@ -197,7 +227,7 @@ func (h *History) approve(b Backend, ev *Event, from githash.Hash) error {
 		}
 	}
 	for _, a := range ev.Approvers {
-		env, err = dsse.SignEnvelope(Ctx, env, keys.DSSE{A: keys.Get(a)})
+		env, err = dsse.SignEnvelope(Ctx, env, keys.DSSE{A: keys.ByName(a)})
 		if err != nil {
 			return err
 		}
